@@ -9,6 +9,7 @@ import (
 	"sync"
 	"sync/atomic"
 	"testing"
+	"time"
 
 	"github.com/AdguardTeam/golibs/syncutil"
 	"pgregory.net/rapid"
@@ -185,7 +186,85 @@ var semaStressProp = vp.Register(vp.Prop[SemaCase]{
 	Check: checkSemaStress,
 })
 
-func TestStressOnce(t *testing.T) { vp.Run(t, onceStressProp) }
+// ReleaseStormCase: k of n slots are held, then k+extra goroutines call Release
+// at the same instant (the extra ones are redundant, which is legal: Release
+// on an empty semaphore is a no-op).  Every Release must return, and afterwards
+// exactly n further Acquires succeed before one has to wait.
+type ReleaseStormCase struct {
+	Cap    int `json:"cap"`
+	Held   int `json:"held"`
+	Extra  int `json:"extra"`
+	Trials int `json:"trials"`
+}
+
+func checkReleaseStorm(c ReleaseStormCase) error {
+	vp.CurrentJSON("c17.release-storm", c)
+	for trial := 0; trial < max(1, c.Trials); trial++ {
+		sem := syncutil.NewChanSemaphore(uint(c.Cap))
+		for i := 0; i < c.Held; i++ {
+			if err := sem.Acquire(context.Background()); err != nil {
+				return fmt.Errorf("trial %d: Acquire %d of %d with free slots failed: %v", trial, i+1, c.Held, err)
+			}
+		}
+		total := c.Held + c.Extra
+		var arrived atomic.Int32
+		done := make(chan struct{}, total)
+		for g := 0; g < total; g++ {
+			go func() {
+				arrived.Add(1)
+				for spins := 0; arrived.Load() < int32(total); spins++ {
+					if spins%2000 == 1999 {
+						runtime.Gosched()
+					}
+				}
+				sem.Release()
+				done <- struct{}{}
+			}()
+		}
+		timeout := time.After(20 * time.Second)
+		for g := 0; g < total; g++ {
+			select {
+			case <-done:
+			case <-timeout:
+				return fmt.Errorf("HANG: trial %d: %d goroutines called Release at once on a semaphore of capacity %d with %d slots held; %d of the calls have not returned after 20 s (Release never blocks)", trial, total, c.Cap, c.Held, total-g)
+			}
+		}
+		// All slots are free again: exactly Cap Acquires succeed at once.
+		for i := 0; i < c.Cap; i++ {
+			ctx, cancel := context.WithTimeout(context.Background(), 5*time.Second)
+			err := sem.Acquire(ctx)
+			cancel()
+			if err != nil {
+				return fmt.Errorf("trial %d: after all %d holders (and %d redundant callers) released, Acquire %d of %d failed: %v", trial, c.Held, c.Extra, i+1, c.Cap, err)
+			}
+		}
+		ctx, cancel := context.WithTimeout(context.Background(), 2*time.Millisecond)
+		err := sem.Acquire(ctx)
+		cancel()
+		if err == nil {
+			return fmt.Errorf("trial %d: capacity %d, yet Acquire number %d succeeded without any Release in between (a redundant Release swallowed a later token)", trial, c.Cap, c.Cap+1)
+		}
+	}
+	vp.Class("release-storm")
+	if c.Extra > 0 && c.Held > 0 {
+		vp.Class("release-storm:redundant-releases-racing-with-real-ones")
+		vp.NonTrivialStr("c17.release-storm", fmt.Sprint(c))
+		vp.Sample("release-storm", c)
+	}
+	return nil
+}
+
+var releaseStormProp = vp.Register(vp.Prop[ReleaseStormCase]{
+	Kind: "c17.release-storm", Base: 150,
+	Gen: func(t *rapid.T) ReleaseStormCase {
+		n := rapid.IntRange(1, 4).Draw(t, "cap")
+		return ReleaseStormCase{Cap: n, Held: rapid.IntRange(0, n).Draw(t, "held"), Extra: rapid.IntRange(0, 3).Draw(t, "extra"), Trials: 20}
+	},
+	Check: checkReleaseStorm,
+})
+
+func TestReleaseStorm(t *testing.T) { vp.Run(t, releaseStormProp) }
+func TestStressOnce(t *testing.T)   { vp.Run(t, onceStressProp) }
 
 // TestStressTwins: several independent constructors / semaphores at once.
 func TestStressTwins(t *testing.T) {
